@@ -15,7 +15,7 @@ import (
 
 // C15: outcomes are deterministic.
 
-var c15Kinds = []string{"help-map-default", "man-page", "ini-write-maps", "ini-same-option-in-sections", "ini-two-unknown-sections", "required-list", "command-list", "completion-list", "choice-message", "env-map-default", "help-full", "ini-callbacks-in-sections", "ini-read-then-write", "duplicate-flag-message"}
+var c15Kinds = []string{"help-map-default", "man-page", "ini-write-maps", "ini-same-option-in-sections", "ini-two-unknown-sections", "required-list", "command-list", "completion-list", "choice-message", "env-map-default", "help-full", "ini-callbacks-in-sections", "ini-read-then-write", "duplicate-flag-message", "write-after-documents"}
 
 func c15Decl(r *Rand, kind string) *Decl {
 	cfg := &DeclCfg{
@@ -27,6 +27,8 @@ func c15Decl(r *Rand, kind string) *Decl {
 	switch kind {
 	case "required-list":
 		cfg.PRequired = 70
+	case "write-after-documents":
+		cfg.MaxFan, cfg.MaxDepth, cfg.PCmds, cfg.PAliases = 6, 2, 100, 60
 	case "command-list", "completion-list":
 		cfg.MaxFan = 9
 		cfg.MaxDepth = 1
@@ -41,6 +43,15 @@ func c15Decl(r *Rand, kind string) *Decl {
 		cfg.OptsMin, cfg.OptsMax, cfg.PShortOnly, cfg.PLongOnly, cfg.PNamespace = 5, 8, 0, 0, 0
 	}
 	d := GenDecl(r, cfg)
+	if kind == "write-after-documents" {
+		// sub-commands declared in non-alphabetical order (what is listed sorted in help must stay in declaration
+		// order everywhere else, whether or not help was produced before)
+		for _, cm := range d.Cmds {
+			for i, j := 0, len(cm.Subs)-1; i < j; i, j = i+1, j-1 {
+				cm.Subs[i], cm.Subs[j] = cm.Subs[j], cm.Subs[i]
+			}
+		}
+	}
 	if kind == "duplicate-flag-message" {
 		// several independent clashes in one declaration: which one is reported must not be left to chance
 		var own []*Opt
@@ -320,6 +331,34 @@ func c15Run(c *Ctx) {
 			os.Unsetenv("GO_FLAGS_COMPLETION")
 			return strings.Join(got, "\n"), nil
 		}
+	case "write-after-documents":
+		rep := 0
+		wopts := flags.IniOptions(flags.IniIncludeDefaults)
+		eval = func() (string, error) {
+			_, b := mk()
+			rep++
+			if rep%2 == 0 {
+				// documents were produced earlier in half of the evaluations
+				var sink bytes.Buffer
+				b.P.WriteHelp(&sink)
+				b.P.WriteManPage(&sink)
+			}
+			// (every evaluation parses the same failing vector: defaults are applied, a command diagnosis is made)
+			b.P.ParseArgs([]string{"zz-no-such-command"})
+			var buf bytes.Buffer
+			flags.NewIniParser(b.P).Write(&buf, wopts)
+			out := buf.String() + "\ncommands:"
+			var walk func(cs []*flags.Command)
+			walk = func(cs []*flags.Command) {
+				for _, fc := range cs {
+					out += " " + fc.Name
+					walk(fc.Commands())
+				}
+			}
+			walk(b.P.Commands())
+			detail = "INI output and Commands() order with and without earlier help/man/diagnosis"
+			return out, nil
+		}
 	case "duplicate-flag-message":
 		eval = func() (string, error) {
 			_, b := mk()
@@ -508,7 +547,7 @@ func init() {
 		},
 		MinNontrivial: 100,
 		RaceCases:     3000,
-		Rule: "scenario s = k mod S (S = 480 quick, 6000 thorough), kind = s mod 14: help with pre-populated map options (3-12 keys) as defaults, full help, man page (SOURCE_DATE_EPOCH fixed), INI output of maps under random write options, INI input setting one option in 2-4 sections (preamble, [Application Options], the group's section, a case variant) plus callbacks spread over sections, three unknown sections at once, required-flag list, command list / unknown command, completion list, invalid-choice message, map default from an environment variable with 10 entries, the duplicated-flag error of a declaration with several independent name clashes. Each scenario is evaluated 256 times on fresh parsers in one process (SHA-256 of every observable: bytes written, Error.Message, completion items, value snapshot, call log) and again in 2 (quick) / 4 (thorough) different processes whose digests the parent compares. " +
+		Rule: "scenario s = k mod S (S = 480 quick, 6000 thorough), kind = s mod 15: help with pre-populated map options (3-12 keys) as defaults, full help, man page (SOURCE_DATE_EPOCH fixed), INI output of maps under random write options, INI input setting one option in 2-4 sections (preamble, [Application Options], the group's section, a case variant) plus callbacks spread over sections, three unknown sections at once, required-flag list, command list / unknown command, completion list, invalid-choice message, map default from an environment variable with 10 entries, the duplicated-flag error of a declaration with several independent name clashes, INI output and Commands() order with and without an earlier help / man page / command diagnosis on the same parser (sub-commands declared in non-alphabetical order). Each scenario is evaluated 256 times on fresh parsers in one process (SHA-256 of every observable: bytes written, Error.Message, completion items, value snapshot, call log) and again in 2 (quick) / 4 (thorough) different processes whose digests the parent compares. " +
 			"A canary map ranged once per evaluation counts the distinct iteration orders the runtime actually produced. distinct = (kind, #maps, #options, #commands, output size).",
 		Assumptions: []string{"only iteration-order non-determinism that the Go runtime actually exhibits is reachable; the library has no goroutines, so there is no scheduler to explore"},
 		Technique:   "runtime repetition monitor: digest equality of all observables across 256 in-process evaluations and across separate processes, with a map-order canary; race detector on 16 concurrent goroutines (thorough)",
